@@ -115,11 +115,20 @@ int main(int argc, char** argv)
         {
             e0 = nact;
             int phases = 1 + (int) R.below(3);
+            // phase loop: many phases back to back without pauses (arrivals of several participants collide
+            // on the same node of the arrival tree)
+            bool tight = nact >= 3 && R.chance(1, 2);
+            if (tight) phases = 12 + (int) R.below(14);
             std::vector<bool> dropped(nact + 1, false);
             for (int p = 0; p < phases; ++p)
                 for (int a = 1; a <= nact; ++a)
                 {
                     if (dropped[a]) continue;
+                    if (tight)
+                    {
+                        scripts[a].push_back({10, 0, 0});
+                        continue;
+                    }
                     int r = (int) R.below(6);
                     if (r == 0 && p + 1 < phases)
                     {
